@@ -179,8 +179,11 @@ def run(chk):
         funcs.append(("Authenticator::" + nm, p.method(AUTH, nm)))
     for nm in ("registration_extension_outputs", "auth_extension_outputs"):
         funcs.append(("Client::" + nm, p.method(CLIENT, nm)))
-    chs = [b for b in p.all_bodies if b.path.endswith("hmac_secret::calculate_hmac_secret")]
-    funcs.append(("calculate_hmac_secret", chs[0] if chs else None))
+    from .common import hmac_functions
+    chs = [b for b in hmac_functions(p) if not any(b is f for _n, f in funcs)]
+    chk.require("R1 taint", "R1|hmac-functions", bool(hmac_functions(p)), "passkey_authenticator", "no function calling hmac_sha256 found")
+    for b in chs:
+        funcs.append((b.path.rsplit("::", 1)[-1], b))
     allowed_secret_returns = {"Authenticator::make_extensions": ("credential",)}
     for nm, b in funcs:
         if not chk.require("R1 taint", "R1|%s" % nm, b, nm, "%s not found" % nm):
